@@ -52,6 +52,16 @@ def run(ctx):
         rc, steer_out = C.harness(["locks", "--steer"], timeout=60)
         if "deadlock" in steer_out:
             C.add_violation(ctx, "steered:deadlock", "steered schedule deadlocks although all traces are flat", "harness locks --steer\n")
+    # atomic views: every state a concurrent read-only call could see between two critical sections of a handle
+    # operation (observed deterministically through the gate of hook H1) is the state before or after a whole
+    # stream operation
+    rc, at = C.harness(["locks", "--atomic"], timeout=300)
+    astat, _, aor = C.parse_stats(at)
+    if rc != 0 and not aor:
+        ctx.undischarged.append("harness locks --atomic crashed: " + at[-300:])
+    for msg in aor[:3]:
+        C.add_violation(ctx, "atomic-view:" + (msg.split("`")[1] if "`" in msg else "?"), msg[:400],
+                        "# C14: %s\n# schedule: the handle's thread runs the operation; between two of its critical sections (lock free) another thread calls entry(\"/obs\").len()\n# replay: harness locks --atomic\n" % msg[:1500])
     # unsteered stress
     rc, st = C.harness(["locks", "--stress", "--readers", 3, "--millis", 1500 if quick else 20000], timeout=120)
     if "deadlock" in st:
@@ -59,9 +69,11 @@ def run(ctx):
     ctx.coverage.update({
         "evaluations": len(ops_lines),
         "distinct_nontrivial": len(set(ops_lines)),
-        "rule": "per-call lock traces (hook H1: mode and hold depth before every acquisition) of every public read-only method, both iterator orders to exhaustion and partially, every handle operation and every mutating API call, on trees with left/right spines and nested children, both versions; each call's program is rebuilt and checked flat by the Lean definition (the hypothesis of C14_no_deadlock); plus one steered two-thread schedule and an unsteered 3-readers-vs-writer stress run on the implementation",
+        "rule": "per-call lock traces (hook H1: mode and hold depth before every acquisition) of every public read-only method, both iterator orders to exhaustion and partially, every handle operation and every mutating API call, on trees with left/right spines and nested children, both versions; each call's program is rebuilt and checked flat by the Lean definition (the hypothesis of C14_no_deadlock); plus one steered two-thread schedule, an unsteered 3-readers-vs-writer stress run on the implementation, and the atomic-view observation: during 19 handle operations per version (buffered writes of 300-900 KiB, flushes, set_len, reads) a read-only call is made at every point where the handle's thread is about to take the lock while holding none — every state a concurrent reader could see — and must see the stream's length before the operation, after a whole flush, or after the operation",
         "samples": ops_lines[6:9],
         "steered_schedule": steer_out.strip()[-40:],
+        "atomic_view_operations": astat.get("evaluations", 0),
+        "atomic_view_observations": astat.get("views", 0),
         "stress": st.strip()[-40:],
         "traces_validated_against_impl": len(ops_lines),
     })
